@@ -53,6 +53,7 @@ class Check:
         self.units = []
         self.exhaustive = None
         self.distinct = set()
+        self.executed = set()    # pattern locations of functions evaluated abstractly by R-REG
         self.known = [k for k in load_known() if k["property"] == pid and k["kind"] == "known"]
 
     # -- declaring rules ----------------------------------------------------
@@ -87,14 +88,15 @@ class Check:
             if k["rule"] == rid and k["at"] == at:
                 self.known_hits.append((k, v))
                 return
-        r["violations"] += 1
         # one report per (rule, place, construct): instantiations are aggregated
         for old in self.violations:
             if old["rule"] == rid and old["at"] == at and old["where"] == where:
                 old.setdefault("also_in", [])
                 if witness and len(old["also_in"]) < 8:
                     old["also_in"].append(witness.get("instantiation") if isinstance(witness, dict) else None)
+                r["instances"] -= 1
                 return
+        r["violations"] += 1
         self.violations.append(v)
 
     def floor(self, rid, found, minimum, what):
